@@ -1042,6 +1042,16 @@ struct ArraysWorld : World {
 			case OP_X_ASSIGN: { { Sut s; *TA[h] = *TA[h2]; } MT[h] = MT[h2]; log.ev("X_ASSIGN typed %d = %d", h, h2); outcome = 1; break; }
 			case OP_X_RELEASE: { { Sut s; *TA[h] = typed_array<Tracked>(); } MT[h].clear(); log.ev("X_RELEASE typed %d", h); outcome = 1; break; }
 			case OP_X_TINSERT: {
+				if ((op.c & 0x300) == 0x300 && usedn > 0 && !failn) {
+					// the value to insert is an element of this very array (as a vector allows): the copy must be of that element as it was
+					long k = (long) ((op.c >> 10) % (size_t) usedn); uint32_t src = MT[h][(size_t) k];
+					const Tracked *own = TA[h]->get(k); bool ok;
+					{ Sut s; ok = own && TA[h]->insert(upos, *own); }
+					log.ev("X_TINSERT typed %d pos=%ld from own element %ld -> %d", h, upos, k, (int) ok); st.hit("probe:insert_own_element");
+					if (ok) { if ((size_t) apos > MT[h].size()) MT[h].resize((size_t) apos, 0); MT[h].insert(MT[h].begin() + apos, src); outcome = 1; }
+					else fail("refused-valid", "typed_array insert of its own element %ld at %ld refused", k, upos);
+					break;
+				}
 				bool ok; { Tracked tmp(val); Sut s(failn); ok = TA[h]->insert(upos, tmp); fired = g.fired; }
 				log.ev("X_TINSERT typed %d pos=%ld%s -> %d", h, upos, fired ? " allocfail" : "", (int) ok);
 				if (ok) { if ((size_t) apos > MT[h].size()) MT[h].resize((size_t) apos, 0); MT[h].insert(MT[h].begin() + apos, val); outcome = 1; }
